@@ -111,6 +111,15 @@ func c20BuildPool(r *rand.Rand) (*c20pool, error) {
 	add(gv, s.Gradient(), "gradient-tensor")
 	big := Shuffled(r, Unique(r, []int{64, 65}, 0.2, 1.5))
 	add(big, rt.MustLeaf(big, false), "large-untracked-leaf")
+	// >= 8192 / >= 16384 elements with order-sensitive values (mixed signs, magnitudes over 12 decades):
+	// any reduction whose association order depends on scheduling shows up as a bit difference
+	for _, s := range [][]int{{96, 128}, {100, 200}, {20000}} {
+		h := Shuffled(r, Unique(r, s, 0.2, 1.5))
+		for i := range h.Data {
+			h.Data[i] *= math.Pow(10, float64(r.Intn(13)-6))
+		}
+		add(h, rt.MustLeaf(h, false), "huge-untracked-leaf")
+	}
 	p.D, p.O = 3, 2
 	w, b := RandT(r, []int{p.O}, -1, 1), RandT(r, []int{p.O}, -1, 1)
 	p.fc, err = layers.NewFC(&layers.FCConfig{Inputs: p.D, Outputs: p.O, Initializers: map[string]layers.Initializer{"Weight": fixedInit{w}, "Bias": fixedInit{b}}})
@@ -181,7 +190,13 @@ func c20GenJobs(r *rand.Rand, p *c20pool, n int) []c20job {
 			}
 			jobs = append(jobs, c20job{kind: "program", prog: b.p})
 		case q == 4:
-			jobs = append(jobs, c20job{kind: "reducers", a: r.Intn(np)})
+			a := r.Intn(np)
+			if r.Intn(2) == 0 { // prefer the large tensors
+				for p.kinds[a] != "huge-untracked-leaf" && p.kinds[a] != "large-untracked-leaf" {
+					a = (a + 1) % np
+				}
+			}
+			jobs = append(jobs, c20job{kind: "reducers", a: a})
 		case q == 5: // implicitly broadcasting arithmetic / comparisons between two pool tensors
 			for {
 				a, b := r.Intn(np), r.Intn(np)
@@ -194,6 +209,12 @@ func c20GenJobs(r *rand.Rand, p *c20pool, n int) []c20job {
 			jobs = append(jobs, c20job{kind: "layer", seed: r.Int63()})
 		case q == 7 || q == 8:
 			jobs = append(jobs, c20job{kind: "private-backprop", seed: r.Int63(), a: r.Intn(np)})
+		case q == 9 && r.Intn(3) == 0:
+			a := r.Intn(np)
+			for p.kinds[a] != "huge-untracked-leaf" {
+				a = (a + 1) % np
+			}
+			jobs = append(jobs, c20job{kind: "huge-elementwise", a: a})
 		default:
 			jobs = append(jobs, c20job{kind: "random", seed: r.Int63()})
 		}
@@ -227,6 +248,16 @@ func c20Run(p *c20pool, jobs []c20job, inject *rand.Rand, start time.Time, rec *
 	}
 	for _, j := range jobs {
 		switch j.kind {
+		case "huge-elementwise":
+			t := p.ts[j.a]
+			var res tensor.Tensor
+			if e := span("elementwise-on-huge", []int{j.a}, func() (err error) {
+				res, err = t.Tanh().Mul(t)
+				return
+			}); e != nil {
+				return out, e
+			}
+			out = append(out, math.Float64bits(res.Sum()), math.Float64bits(res.Std()))
 		case "program":
 			ts := make([]tensor.Tensor, len(j.prog))
 			copy(ts, p.ts)
@@ -337,8 +368,30 @@ func c20Run(p *c20pool, jobs []c20job, inject *rand.Rand, start time.Time, rec *
 			}
 			shape := p.vals[u].Shape
 			w := rt.MustLeaf(RandT(r, shape, -1, 1), true)
+			variant := r.Intn(5)
 			if e := span("private-graph+BackPropagate", []int{u}, func() error {
-				h, err := w.Mul(p.ts[u])
+				// the shared untracked tensor enters the private graph through an implicitly broadcasting
+				// operation or DIRECTLY as an operand of ElMax / ElMin / Patch / Concat
+				var h tensor.Tensor
+				var err error
+				switch {
+				case variant == 1:
+					h, err = w.ElMax(p.ts[u])
+				case variant == 2:
+					h, err = p.ts[u].ElMin(w)
+				case variant == 3:
+					h, err = w.Patch(nil, p.ts[u])
+					if err == nil {
+						h, err = h.Add(w)
+					}
+				case variant == 4 && len(shape) >= 1:
+					h, err = tensor.Concat([]tensor.Tensor{w, p.ts[u]}, 0)
+					if err == nil {
+						h, err = h.Slice([]tensor.Range{{From: 0, To: shape[0]}})
+					}
+				default:
+					h, err = w.Mul(p.ts[u])
+				}
 				if err != nil {
 					return err
 				}
